@@ -226,8 +226,10 @@ func (r *deliveryRule) OnInstr(e *Engine, st *State, fc *FrameCtx, in ssa.Instru
 			s.C = 'a' // attempted, outcome pending
 		case "store0", "cas10":
 			st.Note(in.Pos(), "claim released")
-			if s.I > 0 || s.D > 0 {
+			if s.I > 0 || (s.D > 0 && !fc.InGoroutine()) {
 				e.Report(st, in.Pos(), "claim/reset-after-dispatch", "the claim word is reset after the handler was dispatched: a retired once handler can fire again")
+			} else if s.R == 'y' {
+				e.Report(st, in.Pos(), "claim/released-after-queued-for-retirement", "the claim is handed back although the publisher has already queued the registration for removal: the once handler is retired without ever having run")
 			} else if s.C == 'w' {
 				s.C = 'r'
 			} else {
